@@ -78,6 +78,10 @@ bool exec_case(const uint8_t *d, size_t n, FailInfo &fi) {
     bool pass = true, stopped = false;
     int sig = 0;
     san_sync();
+    { // fill byte of fresh malloc memory for this case: a function of the case bytes (replays agree)
+      static const int fills[] = {-1, -1, 0x01, 0x02, 0x03, 0x7f, 0x80, 0xff};
+      uint32_t h = 2166136261u; for (size_t i = 0; i < n; i++) h = (h ^ d[i]) * 16777619u;
+      vf_malloc_fill = fills[(h >> 7) & 7]; }
     try {
         dirty_stack();
         sig = guarded([&] { run_case(s, c); }, g_cpu);
